@@ -303,7 +303,8 @@ R06.2 no ambient nondeterminism in what is written: no call to time.Now, math/ra
 R06.3 imports are emitted sorted: Data.Imports returns Registry.Imports() and both templates build the import block by ranging over .Imports after any AddImport call (engine T: the block lists the registry's imports in path order on every path);
 R06.4 built-in output cannot be re-discovered: no path of either template declares a type whose type expression is an interface literal or an instantiation (the only shapes interface discovery collects), so re-running over a tree that contains earlier output finds no new candidates in it;
 R06.5 interface order: ParsePackages builds its result by append inside nested ranges over slices only (packages, GoFiles, declared interfaces);
-R06.6 one registry per output file: every iteration of the per-file loop in Run constructs its own TemplateGenerator (fresh import registry) and calls Generate on that one.`
+R06.6 one registry per output file: every iteration of the per-file loop in Run constructs its own TemplateGenerator (fresh import registry) and calls Generate on that one;
+R06.7 the only state shared between the output files of a run, the remote-template cache, holds entries that depend on nothing but their key (every constructor argument is part of the key), so the order in which files are rendered cannot change what a later file gets.`
 	c.NotDecided = "determinism of go list/packages.Load, goimports and yaml.v3; that two runs see the same environment; byte equality as such."
 	c.Assumptions = []string{"the reviewed table in checker/c06.go", "sort.Slice with a total order is deterministic"}
 	c.Rule("R06.1", 12, "")
@@ -312,6 +313,7 @@ R06.6 one registry per output file: every iteration of the per-file loop in Run 
 	c.Rule("R06.4", 100, "")
 	c.Rule("R06.5", 3, "")
 	c.Rule("R06.6", 1, "")
+	c.Rule("R06.7", 1, "")
 	r := loadRepo(c, packages.LoadSyntax, "", mainPatterns...)
 	listing := os.Getenv("MVCHECK_LIST") != ""
 	seenRanges := map[string]int{}
@@ -450,6 +452,8 @@ R06.6 one registry per output file: every iteration of the per-file loop in Run 
 	}
 	// R06.6
 	ruleFreshGenerator(c, r, "R06.6")
+	// R06.7: state shared between output files (the remote-template cache) depends only on its key
+	ruleCacheKey(c, r, "R06.7")
 }
 
 // ruleFreshGenerator: each output file gets its own generator/registry.
